@@ -161,6 +161,32 @@ fn main() {
             ctx.mirror(&l, knot);
         }
     }
+    // conjugation and cancelling pairs carried out with the LIBRARY's braid algebra (Braid::new, inv, *=, closure): g·b·g⁻¹ and
+    // g·g⁻¹·b close to diagrams of the same link as b ("Markov moves on a braid word before closure")
+    for _ in 0..(if thorough { 40 } else { 10 }) {
+        let strands = 3 + r.below(2) as usize;
+        let len = strands - 1 + r.below(3) as usize;
+        let (w, l) = random_braid(&mut r, strands, len);
+        let Some(l) = l else { continue };
+        let glen = 2 + r.below(2) as usize;
+        let gw: Vec<i32> = (0..glen).map(|_| { let g = 1 + r.below(strands as u64 - 1) as i32; if r.bool() { g } else { -g } }).collect();
+        if w.len() + 2 * gw.len() > moved_max { continue }
+        let conj = r.bool();
+        let (w2, gw2) = (w.clone(), gw.clone());
+        let built = guard(move || {
+            let b = yui_link::Braid::new(strands, w2.iter().map(|&x| x.into()).collect());
+            let g = yui_link::Braid::new(strands, gw2.iter().map(|&x| x.into()).collect());
+            let mut c = g.clone();
+            if conj { c *= &b; c *= &g.inv(); } else { c *= &g.inv(); c *= &b; }
+            c.closure()
+        });
+        let desc = format!("library braid algebra: {} {:?} with g = {:?} ({})", strands, w, gw, if conj { "g·b·g⁻¹" } else { "g·g⁻¹·b" });
+        let Some(m) = built else { ctx.s.oracle(false, "Braid::new / inv / *= / closure do not panic on valid words", &desc, "panic"); continue };
+        let knot = l.is_knot();
+        if m.is_knot() != knot || m.components().len() != l.components().len() { ctx.s.oracle(false, "conjugation / a cancelling pair built with Braid::inv preserves the number of components", &desc, &format!("{} vs {}", m.components().len(), l.components().len())); continue }
+        ctx.s.count("move.library-braid-algebra");
+        ctx.compare(&desc, &l, &m, knot, &mut r);
+    }
     // braid-level moves
     for _ in 0..(if thorough { 150 } else { 50 }) {
         let strands = 2 + r.below(3) as usize;
